@@ -42,19 +42,16 @@ def register(add):
     XB = lambda f: '%s/%s_xb' % (f, f)
     EBF = ['eb_mul_ltnaf_imp', 'eb_mul_lnaf_imp', 'eb_mul_rtnaf_imp', 'eb_mul_rnaf_imp', 'eb_mul_basic', 'eb_mul_lwnaf', 'eb_mul_rwnaf', 'eb_mul_halve', 'eb_mul_gen', 'eb_mul_dig']
     BCAL = [XB(f) for f in ('fb_sqr_quick', 'fb_mul_lodah', 'fb_add', 'fb_add_dig', 'fb_addn_low', 'fb_addd_low', 'fb_muln_low', 'fb_sqrl_low', 'fb_mul1_low', 'fb_rdcn_low', 'fb_rand',
-                            'fb_inv_exgcd', 'fb_copy', 'fb_set_dig', 'fb_is_zero', 'dv_zero', 'dv_swap_sec', 'eb_neg_projc', 'eb_set_infty', 'eb_curve_get_b', 'eb_curve_opt_b',
+                            'fb_inv_exgcd', 'fb_copy', 'fb_set_dig', 'fb_is_zero', 'dv_zero', 'dv_swap_sec', 'dv_copy_sec', 'eb_neg_projc', 'eb_set_infty', 'eb_curve_get_b', 'eb_curve_opt_b',
                             'eb_curve_get_ord', 'bn_bits', 'bn_abs', 'bn_add', 'bn_get_bit', 'bn_is_zero', 'bn_sign')]
     eb = dict(sources=['src/eb/relic_eb_mul.c', 'src/bn/relic_bn_mem.c'], headers=['c20x_eb.h', 'c20x_eb_state.h'], conf='base', route='proof', unwind=40, loops=True, timeout=900,
               flags=['--object-bits', '11'], decls='eb_st *r, *p; bn_st *k;', call='eb_mul_lodah(r, p, k)', replace=BCAL, remove_bodies=EBF,
               bound_note='all bit lengths 1..1024 of the group order: the ladder loop is closed by a loop contract')
     for nm, ob in (('zero', 'RLC_ZERO'), ('one', 'RLC_ONE'), ('tiny', 'RLC_TINY'), ('huge', 'RLC_HUGE')):
-        add('c20x.eb_mul_lodah.%s.signpub' % nm, ['C20'], 'eb_mul_lodah', defines=['C20X_EB_OPTB=' + ob, 'C20X_EB_SIGNPUB'],
-            note='field-level event monitor (x-only ladder); callees abstract and trusted to be constant-time as units; curve coefficient shape %s (public); '
-                 'pre: k != 0, result and successor finite (k not 0 or -1 mod the order); the SIGN of the scalar is a second public input (one conditional negation at the end): '
-                 'what the code does, weaker than the property' % ob, **eb)
-    add('c20x.eb_mul_lodah', ['C20'], 'eb_mul_lodah', defines=['C20X_EB_OPTB=RLC_HUGE'],
-        note='field-level event monitor (x-only ladder), STRICT: the only public inputs are the bit length of the order and the curve coefficient shape; the sign of the scalar is secret; '
-             'pre: k != 0, result and successor finite (k not 0 or -1 mod the order)', **eb)
+        add('c20x.eb_mul_lodah.%s' % nm, ['C20'], 'eb_mul_lodah', defines=['C20X_EB_OPTB=' + ob],
+            note='field-level event monitor (x-only ladder), STRICT: the only public inputs are the bit length of the order and the curve coefficient shape %s; the bits AND the sign of the '
+                 'scalar are secret (bn_sign abstract with an unconstrained verdict); the result is negated branch-free: one field addition and one masked copy dv_copy_sec of RLC_FB_DIGS '
+                 'digits; callees abstract and trusted to be constant-time as units; pre: k != 0, result and successor finite (k not 0 or -1 mod the order)' % ob, **eb)
     # ---- G_2: ep2_mul_lwreg -> ep2_mul_reg_gls (the path of g2_mul_sec on the pairing-friendly curves) ------------------------------------
     X2 = lambda f: '%s/%s_x2' % (f, f)
     E2F = ['ep2_mul_gls_imp', 'ep2_mul_reg_gls', 'ep2_mul_naf_imp', 'ep2_mul_reg_imp', 'ep2_mul_basic', 'ep2_mul_slide', 'ep2_mul_monty', 'ep2_mul_lwnaf', 'ep2_mul_lwreg', 'ep2_mul_gen', 'ep2_mul_dig']
@@ -71,3 +68,12 @@ def register(add):
         replace=['ep2_mul_reg_gls', X2('bn_is_zero'), X2('ep2_is_infty'), X2('ep_curve_is_endom'), X2('ep2_set_infty')], remove_bodies=[f for f in E2F if f != 'ep2_mul_lwreg'],
         note='public entry (= g2_mul_sec) over the contract of the worker ep2_mul_reg_gls; pre: k != 0, p != infinity, curve with endomorphism (every curve of G_2 in the library)',
         bound_note='loop-free', **e2)
+    # ---- bn_rec_sac: the recoding length must be public (EXPECTED TO FAIL on /repo for cof != 0: finding F-C) -----------------------------------
+    XS = lambda f: '%s/%s_xs' % (f, f)
+    add('c20x.bn_rec_sac.len', ['C20'], 'bn_rec_sac', sources=[REC], headers=['c20x_sac.h', 'c20x_sac_state.h'], conf='base', route='bounded', unwind=7,
+        flags=['--object-bits', '12'], timeout=600, decls='int8_t *b; size_t *len; bn_t *k; bn_st *u; size_t c, m, n; int cof;', call='bn_rec_sac(b, len, k, u, c, m, n, cof)',
+        replace=[XS(f) for f in ('bn_make', 'bn_copy', 'bn_hlv', 'bn_add_dig', 'bn_get_bit', 'bn_bits', 'memset')],
+        remove_bodies=['bn_rec_win', 'bn_rec_slw', 'bn_rec_naf', 'bn_rec_tnaf', 'bn_rec_rtnaf', 'bn_rec_jsf', 'bn_rec_glv', 'bn_rec_reg', 'bn_rec_tnaf_get', 'bn_rec_tnaf_mod', 'bn_rec_frb'],
+        note='the output length *len is a function of the public n, c, m, bits(u) only; the bit lengths and bits of the subscalars are secret (abstract bn_bits / bn_get_bit); '
+             'callees abstract (frames); KNOWN TO FAIL for cof != 0 (bn_rec_sac takes the maximum with bits(k[i]) + 1): postcondition LEN only',
+        bound_note='m <= 2, c = 1, n <= 3, *len <= 5, loops unwound 7 times with unwinding assertions')
